@@ -15,7 +15,8 @@ configuration of ANOTHER instruction from such a constant and `.add()`s to what 
      (discovered, not listed: the module-level callables of every module that mentions the configuration classes, whose
      required parameters are phase flags / names / relativities) is CALLED natively for every argument, and the
      module-level relativity constants of all those modules -- taken as frozen VALUES (frozenset of the accepted
-     relativities, absolute flag, default) -- are compared before / after; then, after all of them ran and the
+     relativities, absolute flag, default) -- are compared before / after (and, first, with the value their
+     DEFINITION gives: the module source executed again in a fresh namespace); then, after all of them ran and the
      complete program (all instruction sets) is loaded, the accepted-set obligations of the property are evaluated
      again on the constants and on freshly built parsers of `file`, `dir`, `copy`;
  (b) `relativity constants: syntactic frame` -- no function of the tree calls a mutating method / uses an augmented
@@ -30,6 +31,7 @@ import inspect
 import itertools
 import os
 import re
+import runpy
 import typing
 
 from pyvc.api import Module
@@ -96,6 +98,20 @@ def _sets_of(x, k, out):
         _sets_of(x.options, k, out)
     elif isinstance(x, set):
         out.append((x, set(x)))
+
+
+def _restore_to(x, fv, k):
+    """put the value `fv` (a frozen_value) back into the mutable sets the constant x holds"""
+    if isinstance(x, k['variants']):
+        _restore_to(x.rel_option_types, ('relset', fv[1]), k)
+    elif isinstance(x, (k['options'], k['arg'])):
+        _restore_to(x.accepted_relativity_variants if isinstance(x, k['options']) else x.options, fv[1], k)
+    elif isinstance(x, set):
+        by_name = {c.__name__: c for c in k['enums']}
+        members = {k['rel'][n] for n in fv[1]} if fv[0] == 'relset' else {by_name[t][n] for t, n in fv[1]}
+        if x != members:
+            x.clear()
+            x.update(members)
 
 
 def _constants(mods, k):
@@ -195,8 +211,6 @@ def _frame(ctx):
                    not not_importable, 'enumeration', detail={'modules': len(files), 'failed': not_importable})
     consts = _constants(mods, k)
     restore = []
-    for v in consts.values():
-        _sets_of(v, k, restore)
 
     def put_back():
         for s, original in restore:
@@ -204,7 +218,31 @@ def _frame(ctx):
                 s.clear()
                 s.update(original)
 
+    # the value each constant is DEFINED with: the module's source executed again in a fresh namespace (what the live
+    # object holds now may already have been changed by code that ran while the program was imported)
+    defined, not_executed = {}, []
+    for m in mods:
+        try:
+            ns = runpy.run_path(m.__file__, run_name=m.__name__)
+        except Exception as ex:
+            not_executed.append('%s: %r' % (m.__name__, ex))
+            continue
+        for (mod_name, name) in consts:
+            if mod_name == m.__name__ and frozen_value(ns.get(name), k) is not None:
+                defined[(mod_name, name)] = frozen_value(ns[name], k)
     before = _snapshot(consts, k)
+    changed_at_load = _diff(defined, {key: before[key] for key in defined})
+    ctx.obligation('at load: every module-level relativity constant has the value its definition gives '
+                   '(nothing that runs at import time has changed it)',
+                   not changed_at_load and not not_executed and len(defined) >= 10, 'enumeration',
+                   detail={'compared': len(defined), 'changed': changed_at_load, 'not executed': not_executed})
+    if changed_at_load:      # judge the builders from the defined state all the same
+        for key in defined:
+            if defined[key] != before[key]:
+                _restore_to(consts[key], defined[key], k)
+        before = _snapshot(consts, k)
+    for v in consts.values():
+        _sets_of(v, k, restore)
     builders = _builders(mods, k)
     ctx.obligation('relativity constants and the builders of relativity configurations are found (not vacuous)',
                    len(consts) >= 10 and len(builders) >= 10
